@@ -6,9 +6,11 @@
   positions that hold every mandatory one.
 -/
 import Proofs.Kernels
+import Asn1.Container
 
 namespace Asn1.Kernels
 open Py
+open Asn1.Container
 
 /-- positions as the translated code sees them -/
 def natInts (l : List Nat) : Py.Tup := l.map (fun (n : Nat) => ((n : Nat) : Int))
@@ -51,5 +53,36 @@ theorem requiredSeenIndef_kernel (req seen : List Nat) :
   unfold GenK.requiredSeenIndef
   rw [issuperset_nat]
   cases req.all (fun i => seen.contains i) <;> rfl
+
+/-! ### index normalisation of SEQUENCE OF / SET OF objects (type/univ.py) -/
+
+/-- the model's answer as the translated statement reports it -/
+def liftIdx : Option Nat → Py.M Int
+  | some k => .ok (k : Int)
+  | none => .error (.lib "PyAsn1Error")
+
+/-- **`if idx < 0: idx = len(self) + idx; if idx < 0: raise` as it stands in `getComponentByPosition`** is the model's
+    `SeqOf.normIdx`: a non-negative index as it is, a negative one counted from the end, PyAsn1Error before the front -/
+theorem seqOfGetIdx_kernel (st : SeqOfSt) (i : Int) :
+    GenK.seqOfGetIdx (SeqOf.len st : Int) i = liftIdx (SeqOf.normIdx st i) := by
+  unfold GenK.seqOfGetIdx SeqOf.normIdx
+  by_cases h0 : 0 ≤ i
+  · have : ¬ (i < 0) := by omega
+    simp only [this, decide_false, Bool.false_eq_true, if_false, h0, if_true, liftIdx, bind, Except.bind, pure, Except.pure]
+    congr 1; omega
+  · have h1 : i < 0 := by omega
+    simp only [h1, decide_true, if_true, h0, if_false]
+    by_cases h2 : 0 ≤ (SeqOf.len st : Int) + i
+    · have : ¬ ((SeqOf.len st : Int) + i < 0) := by omega
+      simp only [this, decide_false, Bool.false_eq_true, if_false, h2, if_true, liftIdx, bind, Except.bind, pure, Except.pure]
+      congr 1; omega
+    · have : (SeqOf.len st : Int) + i < 0 := by omega
+      simp [this, h2, liftIdx, throw, throwThe, MonadExceptOf.throw, bind, Except.bind]
+
+/-- the same statement as it stands in `setComponentByPosition` -/
+theorem seqOfSetIdx_kernel (st : SeqOfSt) (i : Int) :
+    GenK.seqOfSetIdx (SeqOf.len st : Int) i = liftIdx (SeqOf.normIdx st i) := by
+  have : GenK.seqOfSetIdx (SeqOf.len st : Int) i = GenK.seqOfGetIdx (SeqOf.len st : Int) i := rfl
+  rw [this, seqOfGetIdx_kernel]
 
 end Asn1.Kernels
